@@ -16,12 +16,15 @@
    the same name with the flag `up` set (the driver upper-cases the string it sends). *)
 EXTENDS Integers, Sequences, FiniteSets, TLC, Json
 
-CONSTANTS SrvCases,   \* set of [side: "srv", ctxs: Seq(Ctx), insp: BOOLEAN, first: "tls"|"plain", hello: Hello]
-          UpCases,    \* set of [side: "up", cfg: [sn, skip, ca], cert: [names, ca, expired]]
+CONSTANTS SrvCases,   \* set of [side: "srv", ctxs: Seq(Ctx), upds: Seq(Upd), insp: BOOLEAN, first: "tls"|"plain", hello: Hello]
+          UpCases,    \* set of [side: "up", cfg: [sn, skip, ca], upds: Seq(Upd), cert: [names, ca, expired]]
           Defects     \* {} = intended design
 
 (*  Ctx   == [names: SUBSET Name, sn: Name, alpn: SUBSET STRING, ready, verify, require: BOOLEAN, ca: STRING]
-    Hello == [sni: Name, up: BOOLEAN, alpn: SUBSET STRING, peer: PeerKind, vers: {12, 13}]                    *)
+    Hello == [sni: Name, up: BOOLEAN, alpn: SUBSET STRING, peer: PeerKind, vers: {12, 13}]
+    Upd   == [pos: Nat, field: STRING, val: ...]   a runtime update of ONE field of the context at pos (SDS push of a
+             new validation CA / leaf certificate, listener or cluster TLS config update); pos = 0 on the upstream side.
+    The configuration a handshake is judged by is the one after ALL updates pushed so far: the last push wins. *)
 
 PeerKinds == {"none", "self", "ca1", "ca2", "exp1", "nokey1"}
 (* none: no certificate; self: self-signed; ca1/ca2: valid leaf of that CA with its key; exp1: expired leaf of
@@ -29,6 +32,19 @@ PeerKinds == {"none", "self", "ca1", "ca2", "exp1", "nokey1"}
 
 Star == "*"
 Min(S) == CHOOSE x \in S : \A y \in S : x <= y
+
+(* ------------------------------------------------------------------ update histories *)
+SetField(c, f, v) == CASE f = "ca"      -> [c EXCEPT !.ca = v]
+                       [] f = "names"   -> [c EXCEPT !.names = v]
+                       [] f = "sn"      -> [c EXCEPT !.sn = v]
+                       [] f = "alpn"    -> [c EXCEPT !.alpn = v]
+                       [] f = "verify"  -> [c EXCEPT !.verify = v]
+                       [] f = "require" -> [c EXCEPT !.require = v]
+                       [] f = "skip"    -> [c EXCEPT !.skip = v]
+(* x is a context list (server side, u.pos >= 1) or the cluster's tls config record (upstream side, u.pos = 0) *)
+ApplyUpd(x, u) == IF u.pos = 0 THEN SetField(x, u.field, u.val) ELSE [x EXCEPT ![u.pos] = SetField(@, u.field, u.val)]
+RECURSIVE ApplyAll(_, _)
+ApplyAll(x, us) == IF us = <<>> THEN x ELSE ApplyAll(ApplyUpd(x, Head(us)), Tail(us))
 
 (* ------------------------------------------------------------------ reference: what C13 states *)
 Wild(n, k) == <<Star>> \o SubSeq(n, k + 1, Len(n))          \* the k leading labels replaced by one "*"
@@ -74,9 +90,15 @@ UpExpect(cfg, cert) == IF cfg.skip THEN "ok"
                        ELSE IF cfg.sn \in cert.names THEN "ok" ELSE "fail"
 
 (* ------------------------------------------------------------------ implementation-shaped model *)
-VARIABLES cs,       \* the case (configuration + input)
+VARIABLES cs,       \* the case (configuration + update history + input)
+          live,     \* the configuration the running objects were built from (context list / cluster tls config)
+          todo,     \* updates not pushed yet
           pc, i, dflt, afirst, chosen, served, result
-vars == <<cs, pc, i, dflt, afirst, chosen, served, result>>
+vars == <<cs, live, todo, pc, i, dflt, afirst, chosen, served, result>>
+
+(* what the generated hash value covers (confighook.go GenerateHashValue): leaf certificate chain, ALPN, ClientAuth,
+   ciphers/curves/versions - NOT the CA pools, the server name or InsecureSkipVerify *)
+HashCovered(f) == f \in {"names", "alpn", "verify", "require"}
 
 (* buildMatch: the set a context answers to *)
 Matches(c) == c.names
@@ -93,13 +115,23 @@ ImplAuth(c, p) == AuthByMode(ImplMode(c), c, p)
 Outcomes(e) == IF e = "any" THEN {"ok", "fail"} ELSE {e}
 
 Init == /\ cs \in SrvCases \cup UpCases
+        /\ live = (IF cs.side = "srv" THEN cs.ctxs ELSE cs.cfg) /\ todo = cs.upds
         /\ pc = "accept" /\ i = 0 /\ dflt = 0 /\ afirst = 0 /\ chosen = 0 /\ served = "-" /\ result = "-"
 
 Srv == cs.side = "srv"
-Ctxs == cs.ctxs
+Ctxs == live                                  \* what the scan runs on
+RefCtxs == ApplyAll(cs.ctxs, cs.upds)         \* what the property judges by: the last pushed configuration
+RefCfg == ApplyAll(cs.cfg, cs.upds)
+
+(* a runtime update: sdsProvider.setValidation / setCertificate / updateConfig -> update(), or a new manager built
+   from the updated listener config. The named way to go wrong: the rebuilt context is dropped when "nothing changed" *)
+Push == /\ pc = "accept" /\ todo # <<>>
+        /\ live' = IF "StaleOnEqualHash" \in Defects /\ ~HashCovered(Head(todo).field) THEN live ELSE ApplyUpd(live, Head(todo))
+        /\ todo' = Tail(todo)
+        /\ UNCHANGED <<cs, pc, i, dflt, afirst, chosen, served, result>>
 
 (* serverContextManager.Conn *)
-Accept == /\ pc = "accept" /\ Srv
+Accept == /\ pc = "accept" /\ Srv /\ todo = <<>>
           /\ IF ReadyIdx(Ctxs) = {}                      \* !Enabled()
              THEN IF cs.insp \/ "PlainWhenNotReady" \in Defects
                   THEN /\ served' = "plain" /\ pc' = "done"
@@ -108,13 +140,13 @@ Accept == /\ pc = "accept" /\ Srv
              ELSE IF cs.insp /\ cs.first = "plain"       \* Peek(): first byte is not 0x16
                   THEN served' = "plain" /\ pc' = "done" /\ result' = "plain"
                   ELSE served' = "tls" /\ pc' = "hello" /\ result' = result
-          /\ UNCHANGED <<cs, i, dflt, afirst, chosen>>
+          /\ UNCHANGED <<cs, live, todo, i, dflt, afirst, chosen>>
 
 (* tls.Server reads the first record *)
 Hello == /\ pc = "hello"
          /\ IF cs.first = "plain" THEN pc' = "done" /\ result' = "fail" /\ i' = i
                                   ELSE pc' = "scan" /\ result' = result /\ i' = 1
-         /\ UNCHANGED <<cs, dflt, afirst, chosen, served>>
+         /\ UNCHANGED <<cs, live, todo, dflt, afirst, chosen, served>>
 
 (* one iteration of the loop in GetConfigForClient *)
 Scan == /\ pc = "scan" /\ i <= Len(Ctxs)
@@ -125,26 +157,26 @@ Scan == /\ pc = "scan" /\ i <= Len(Ctxs)
                      THEN chosen' = i /\ pc' = "auth" /\ UNCHANGED <<afirst, i>>
                      ELSE /\ afirst' = IF afirst = 0 /\ AlpnMatch(c, cs.hello.alpn) THEN i ELSE afirst
                           /\ i' = i + 1 /\ UNCHANGED <<chosen, pc>>
-        /\ UNCHANGED <<cs, served, result>>
+        /\ UNCHANGED <<cs, live, todo, served, result>>
 
 Decide == /\ pc = "scan" /\ i > Len(Ctxs)
           /\ chosen' = IF afirst # 0 THEN afirst ELSE dflt
           /\ IF chosen' = 0 THEN pc' = "done" /\ result' = "fail" ELSE pc' = "auth" /\ result' = result
-          /\ UNCHANGED <<cs, i, dflt, afirst, served>>
+          /\ UNCHANGED <<cs, live, todo, i, dflt, afirst, served>>
 
 (* the handshake under the chosen context's ClientAuth / ClientCAs *)
 Auth == /\ pc = "auth"
         /\ result' \in Outcomes(ImplAuth(Ctxs[chosen], cs.hello.peer))
         /\ pc' = "done"
-        /\ UNCHANGED <<cs, i, dflt, afirst, chosen, served>>
+        /\ UNCHANGED <<cs, live, todo, i, dflt, afirst, chosen, served>>
 
 (* clientContextManager.Conn: handshake towards the upstream *)
-UpHandshake == /\ pc = "accept" /\ ~Srv
-               /\ result' \in IF "SkipVerifyLeftOn" \in Defects THEN {"ok"} ELSE Outcomes(UpExpect(cs.cfg, cs.cert))
+UpHandshake == /\ pc = "accept" /\ ~Srv /\ todo = <<>>
+               /\ result' \in IF "SkipVerifyLeftOn" \in Defects THEN {"ok"} ELSE Outcomes(UpExpect(live, cs.cert))
                /\ pc' = "done" /\ served' = "tls"
-               /\ UNCHANGED <<cs, i, dflt, afirst, chosen>>
+               /\ UNCHANGED <<cs, live, todo, i, dflt, afirst, chosen>>
 
-Next == Accept \/ Hello \/ Scan \/ Decide \/ Auth \/ UpHandshake
+Next == Push \/ Accept \/ Hello \/ Scan \/ Decide \/ Auth \/ UpHandshake
 Spec == Init /\ [][Next]_vars
 
 Done == pc = "done"
@@ -155,19 +187,21 @@ TypeOK == /\ pc \in {"accept", "hello", "scan", "auth", "done"}
           /\ result \in {"-", "ok", "fail", "plain"}
           /\ Srv => chosen \in 0..Len(Ctxs)
 
-SelectionIsPick == (Srv /\ Done /\ served = "tls" /\ cs.first = "tls") => chosen = Pick(Ctxs, cs.hello)
-NeverNotReady   == (Srv /\ chosen # 0) => Ctxs[chosen].ready
+(* every property is stated against RefCtxs / RefCfg: the configuration after the last push *)
+LastPushWins    == Done => live = (IF Srv THEN RefCtxs ELSE RefCfg)
+SelectionIsPick == (Srv /\ Done /\ served = "tls" /\ cs.first = "tls") => chosen = Pick(RefCtxs, cs.hello)
+NeverNotReady   == (Srv /\ chosen # 0) => RefCtxs[chosen].ready
 AuthSound == (Srv /\ Done /\ result = "ok") =>
-               LET c == Ctxs[chosen] p == cs.hello.peer IN
+               LET c == RefCtxs[chosen] p == cs.hello.peer IN
                  /\ (c.verify /\ c.require) => PeerValid(p, c.ca)
                  /\ (c.verify /\ p # "none") => PeerValid(p, c.ca)
 PlainOnlyIfInspector == (Srv /\ Done /\ result = "plain") => PlainAllowed(cs.insp)
-TlsServedWhenReady   == (Srv /\ Done /\ cs.first = "tls" /\ Pick(Ctxs, cs.hello) # 0
-                           /\ AuthExpect(Ctxs[Pick(Ctxs, cs.hello)], cs.hello.peer) = "ok") => result = "ok"
+TlsServedWhenReady   == (Srv /\ Done /\ cs.first = "tls" /\ Pick(RefCtxs, cs.hello) # 0
+                           /\ AuthExpect(RefCtxs[Pick(RefCtxs, cs.hello)], cs.hello.peer) = "ok") => result = "ok"
 UpSound == (~Srv /\ Done /\ result = "ok") =>
-             \/ cs.cfg.skip
-             \/ UpChainOK(cs.cfg, cs.cert) /\ (cs.cfg.sn = <<>> \/ cs.cfg.sn \in cs.cert.names)
+             \/ RefCfg.skip
+             \/ UpChainOK(RefCfg, cs.cert) /\ (RefCfg.sn = <<>> \/ RefCfg.sn \in cs.cert.names)
 
 (* one CASE line per case of the universe, consumed by the Go driver *)
-EmitCase == pc = "accept" => PrintT(<<"CASE", ToJson(cs)>>)
+EmitCase == (pc = "accept" /\ todo = cs.upds) => PrintT(<<"CASE", ToJson(cs)>>)
 ====
